@@ -23,6 +23,20 @@ seed, padding, write sequence and every segmentation of the byte stream.
 namespace C14
 open O4 O4.SC O4.Obfs2 O4.Consts.Obfs2
 
+/-! ### the wire-format constants are the specification's -/
+
+/-- **Spec conformance of the constants.** The constants regenerated from the Go tree on this run
+are the values of the obfs2 specification (MAGIC_VALUE 0x2BF5CA7E, SEED_LENGTH 16, MAX_PADDING 8192,
+KEYLEN 16, 8 header bytes, the four MAC labels). A change of any of them in the code — which the
+model, built from the same constants, would follow silently — stops this theorem from checking. -/
+theorem spec_constants :
+    magicValue = 0x2BF5CA7E ∧ seedLen = 16 ∧ maxPadding = 8192 ∧ keyLen = 16 ∧ hsLen = 8 ∧
+    initiatorPadString = "Initiator obfuscation padding" ∧
+    responderPadString = "Responder obfuscation padding" ∧
+    initiatorKdfString = "Initiator obfuscated data" ∧
+    responderKdfString = "Responder obfuscated data" :=
+  ⟨rfl, rfl, rfl, rfl, rfl, rfl, rfl, rfl, rfl⟩
+
 /-! ### the executable instantiation meets the hypotheses used below -/
 
 theorem real_law : Prims.real.sxor.Law aesKs := aesCtrXor_law
